@@ -323,3 +323,27 @@ def arm_bypass(pf, entry, reg, wbb):
                 continue
             work.append(y)
     return False
+
+
+def arm_effect_unconditional(ctx, rule, kind, callee):
+    """in the dispatch arm of chunk kind `kind`, the call of `callee` (the routine that records the decoded entity) is on every
+    error-free path through the arm: the chunk is honoured wherever it stands in the file (seed C09-r ignored layer chunks outside
+    frame 0, "like tags")"""
+    pf = ctx.anchor('asefile::parse::parse_frame')
+    if pf is None:
+        return
+    arms = dispatch_arms(pf)
+    if arms is None:
+        ctx.fail(pf.name + '|%s|no-dispatch' % rule, 'no ChunkType dispatch found in parse_frame')
+        return
+    n = 0
+    for k_, s_, reg, sw in arms:
+        if k_ != kind:
+            continue
+        cs = [c for c in q.calls(pf, callee) if c.bb in reg]
+        n += len(cs)
+        ok = bool(cs) and not any(arm_bypass(pf, s_, reg, c.bb) for c in cs)
+        ctx.inst(rule, '%s arm -> %s' % (kind, callee.split('::')[-1]), ok, '%s chunk: %s is %s' % (kind, callee.split('::')[-1],
+                 'called on every error-free path through the arm' if ok else 'NOT called on every path (the chunk can be ignored)'),
+                 pf.blocks[s_]['term'].get('span') if pf.blocks[s_]['term'] else pf.span, key=pf.name + '|%s|%s|always' % (rule, kind))
+    ctx.floor('%s arm calls of %s' % (kind, callee.split('::')[-1]), n, 1)
